@@ -66,3 +66,121 @@ pub fn class<T>(r: &BlsResult<T>) -> (&'static str, &'static str) {
         Err(e) => ("Err", crate::signet::err_variant(e)),
     }
 }
+
+/// every entry point the replay drives; spec/Api.tla may name only these (checked at start-up: a table that names
+/// an entry point the harness does not drive is a tool error, not a pass)
+pub const DRIVEN: &[&str] = &[
+    "AggregateSignature::from_signatures",
+    "AggregateSignature::verify",
+    "BlsElGamal::decrypt",
+    "BlsElGamal::seal_scalar",
+    "BlsElGamal::seal_scalar_with_proof",
+    "BlsElGamal::verify_and_decrypt",
+    "BlsElGamal::verify_proof",
+    "BlsMultiKey::from_public_keys",
+    "BlsMultiSignature::from_signatures",
+    "BlsSignCrypt::unseal",
+    "BlsSignCrypt::valid",
+    "BlsSignCrypt::verify_share",
+    "BlsSignature::proof_challenge_from_hash",
+    "BlsSignature::random_proof_challenge",
+    "BlsSignature::random_secret_key",
+    "BlsSignature::secret_key_from_hash",
+    "BlsSignatureBasic::aggregate_verify",
+    "BlsSignatureBasic::partial_sign",
+    "BlsSignatureBasic::partial_verify",
+    "BlsSignatureBasic::sign",
+    "BlsSignatureBasic::verify",
+    "BlsSignatureCore::aggregate_public_keys",
+    "BlsSignatureCore::aggregate_signatures",
+    "BlsSignatureCore::core_combine_public_key_shares",
+    "BlsSignatureCore::core_combine_signature_shares",
+    "BlsSignatureCore::core_sign",
+    "BlsSignatureCore::public_key",
+    "BlsSignatureMessageAugmentation::aggregate_verify",
+    "BlsSignatureMessageAugmentation::sign",
+    "BlsSignatureMessageAugmentation::verify",
+    "BlsSignaturePop::aggregate_verify",
+    "BlsSignaturePop::multi_sig_verify",
+    "BlsSignaturePop::partial_sign",
+    "BlsSignaturePop::partial_verify",
+    "BlsSignaturePop::pop_prove",
+    "BlsSignaturePop::pop_verify",
+    "BlsSignaturePop::sign",
+    "BlsSignaturePop::verify",
+    "BlsSignatureProof::verify",
+    "BlsSignatureProof::verify_timestamp_proof",
+    "BlsTimeCrypt::unseal",
+    "ElGamalCiphertext::add(6 forms)",
+    "ElGamalCiphertext::decrypt",
+    "ElGamalProof::verify",
+    "ElGamalProof::verify_and_decrypt",
+    "MultiPublicKey::from_public_keys",
+    "MultiSignature::from_signatures",
+    "MultiSignature::verify",
+    "ProofCommitment::finalize",
+    "ProofCommitment::generate",
+    "ProofCommitmentChallenge::from_hash",
+    "ProofCommitmentChallenge::random",
+    "ProofOfKnowledge::verify",
+    "ProofOfKnowledgeTimestamp::generate",
+    "ProofOfKnowledgeTimestamp::verify",
+    "ProofOfPossession::verify",
+    "PublicKey::from_shares",
+    "PublicKeyShare::verify",
+    "SecretKey::combine",
+    "SecretKey::from_hash",
+    "SecretKey::proof_of_possession",
+    "SecretKey::public_key",
+    "SecretKey::random",
+    "SecretKey::sign",
+    "SecretKeyEnum::from_hash",
+    "SecretKeyShare::sign",
+    "SignCryptCiphertext::decrypt",
+    "SignCryptCiphertext::decrypt_with_shares",
+    "SignCryptCiphertext::is_valid",
+    "SignCryptDecryptionKey::decrypt",
+    "SignCryptDecryptionKey::from_shares",
+    "SignDecryptionShare::verify",
+    "Signature::from_shares",
+    "Signature::verify",
+    "SignatureShare::verify",
+    "TimeCryptCiphertext::decrypt",
+    "TryFrom<&Vec<u8>>",
+    "TryFrom<&[u8]>",
+    "TryFrom<Box<[u8]>>",
+    "TryFrom<Vec<u8>>",
+    "Vec<u8>::from(&T)",
+    "Vec<u8>::from(T)",
+    "[u8; 32]::from(&SecretKey)",
+    "[u8; 32]::from(SecretKey)",
+    "from_be_bytes",
+    "from_le_bytes",
+    "serde_bare::from_reader",
+    "serde_bare::from_slice",
+    "serde_json::from_reader",
+    "serde_json::from_slice",
+    "serde_json::from_str",
+    "serde_json::from_value",
+    "serde_json::to_string",
+    "serde_json::to_string_pretty",
+    "serde_json::to_value",
+    "serde_json::to_vec",
+    "to_be_bytes",
+    "to_le_bytes",
+];
+
+pub fn api_check(tables: &crate::refeval::Tables) -> Result<usize, String> {
+    let api = tables.0.get("api").and_then(|a| a.as_object()).ok_or("tables carry no api map (spec/Api.tla)")?;
+    let mut n = 0;
+    for (action, eps) in api {
+        for e in eps.as_array().ok_or("api entry is not a set")? {
+            let name = e.as_str().ok_or("entry point name")?;
+            if !DRIVEN.contains(&name) {
+                return Err(format!("spec/Api.tla lists entry point {name} for action {action}; the harness does not drive it"));
+            }
+            n += 1;
+        }
+    }
+    Ok(n)
+}
